@@ -61,6 +61,9 @@ func Start(id, level string) *Run {
 		r.Seed, _ = strconv.ParseInt(v, 10, 64)
 	}
 	r.loadKnown()
+	if f := os.Getenv("VERIF_REPLAY"); f != "" {
+		genericReplay(id, f) // does not return
+	}
 	// LiteFS logs through the standard logger; keep the check's output to verdict lines.
 	if os.Getenv("VERIF_LOG") == "" && os.Getenv("VERIF_REPLAY") == "" {
 		log.SetOutput(io.Discard)
@@ -255,4 +258,75 @@ func (d *Distinct) Top(n int) map[string]int {
 		out[k] = d.m[k]
 	}
 	return out
+}
+
+
+// genericReplay re-executes the case stored in a replay file five times in a worker subprocess of this
+// test binary, without the explorer, and reports whether the violation recurs (exit 1) or not (exit 0).
+// It serves every check whose violations carry their worker case ("case" or "loss_case"); the cluster-history
+// checks replay through hist.Replay before Start is reached.
+func genericReplay(id, path string) {
+	b, err := os.ReadFile(path)
+	if err != nil {
+		fmt.Println("replay:", err)
+		os.Exit(2)
+	}
+	var f struct {
+		Key    string                     `json:"key"`
+		Replay map[string]json.RawMessage `json:"replay"`
+	}
+	if err := json.Unmarshal(b, &f); err != nil {
+		fmt.Println("replay:", err)
+		os.Exit(2)
+	}
+	var c json.RawMessage
+	for _, k := range []string{"case", "loss_case"} {
+		if v, ok := f.Replay[k]; ok {
+			c = v
+			break
+		}
+	}
+	if c == nil {
+		fmt.Printf("replay: the payload of %s (%s) is not a worker case; see DESIGN.md section 9.2 for how to re-run it\n", path, f.Key)
+		os.Exit(2)
+	}
+	pool := &Pool{N: 1, CaseTimeout: 10 * time.Minute}
+	defer pool.Close()
+	fails := 0
+	for i := 0; i < 5; i++ {
+		pool.Run([]any{c}, func(_ int, out json.RawMessage, crash *Crash, flaky bool) {
+			if crash != nil {
+				fails++
+				fmt.Printf("REPLAY run %d: worker died (timeout=%v)\n%s\n", i+1, crash.Timeout, crash.Output)
+				return
+			}
+			var r struct {
+				V []struct {
+					Key  string `json:"key"`
+					What string `json:"what"`
+				} `json:"v"`
+				Harness string `json:"harness"`
+			}
+			_ = json.Unmarshal(out, &r)
+			if len(r.V) > 0 {
+				fails++
+				for _, v := range r.V {
+					if i == 0 {
+						fmt.Printf("REPLAY VIOLATION key=%s\n%s\n", v.Key, v.What)
+					} else {
+						fmt.Printf("REPLAY run %d: key=%s\n", i+1, v.Key)
+					}
+				}
+			} else {
+				fmt.Printf("REPLAY run %d: no violation%s\n", i+1, map[bool]string{true: " (harness: " + r.Harness + ")", false: ""}[r.Harness != ""])
+			}
+		})
+	}
+	fmt.Printf("replay of %s (%s): violation in %d of 5 runs\n", path, f.Key, fails)
+	pool.Close()
+	if fails > 0 {
+		fmt.Printf("VIOLATION property=%s replay=%s\n", id, path)
+		os.Exit(1)
+	}
+	os.Exit(0)
 }
